@@ -24,7 +24,10 @@ def snap(objs):
         elif hasattr(o, "data") and hasattr(o, "units"):          # Provenance
             out[k] = (np.asarray(o.data).tobytes(), tuple(map(str, o.units)), tuple(map(str, o.candidates)))
         elif hasattr(o, "get_params"):
-            out[k] = (repr(sorted(o.get_params().items())), sorted(a for a in vars(o) if a.endswith("_") and not a.startswith("_")))
+            def fitted(est):
+                return sorted(a for a in vars(est) if a.endswith("_") and not a.startswith("_"))
+            parts = [("", o)] + [(nm, st) for nm, st in getattr(o, "steps", [])]
+            out[k] = (repr(sorted((kk, repr(vv)) for kk, vv in o.get_params(deep=True).items())), [(nm, fitted(est)) for nm, est in parts])
         else:
             out[k] = pickle.dumps(o)
     return out
@@ -67,7 +70,9 @@ def run(ctx):
             ylab = pd.Series(y) if prov_kind == "series" else y
             D = np.abs(X[:, None, 0] - Xv[None, :, 0]) + np.arange(n)[:, None] * 1e-3
             datasets.append(dict(X=X, y=ylab, Xv=Xv, yv=yv, prov=prov, D=D))
-        model = KNeighborsClassifier(1)
+        from sklearn.pipeline import Pipeline
+        from sklearn.preprocessing import StandardScaler
+        model = KNeighborsClassifier(1) if rng.random() < 0.5 else Pipeline([("sc", StandardScaler()), ("knn", KNeighborsClassifier(1))])
         util_kind = rng.choice(["accuracy", "eqodds"])
 
         def make_util(mdl):
@@ -132,7 +137,8 @@ def run(ctx):
                             ctx.mismatch("score() modified the distance matrix returned by the distance callable", dict(case, step=k), impl="distance matrix changed")
                             bad = True
                             break
-                        fresh = make(methods[o], utility=make_util(KNeighborsClassifier(1)))      # fresh importance object AND fresh utility
+                        import sklearn.base as _skb
+                        fresh = make(methods[o], utility=make_util(_skb.clone(model)))      # fresh importance object AND fresh utility
                         fresh.nn_distance = lambda A, B, Dm=keep: Dm.copy()
                         fs = list(np.asarray(fresh.fit(fd["X"], fd["y"], provenance=fd["prov"]).score(d["Xv"], d["yv"]), dtype=float))
                         if s != fs and not (methods[o] == "montecarlo"):
